@@ -16,7 +16,7 @@ LEVEL = "exploration"
 RULE = ("random lattice arrays (multiples of 1/8, zeros, negatives) for the ten arithmetic commands, every int64/float64 assignment "
         "for n<=4 inputs (sampled for 5), input orders permuted, weights int/float/mixed; plus single-fault cases (shape, weight count, "
         "empty list); distinct by (command, n, dtype assignment, mask classes, param kinds, fault kind)")
-REQUIRED_COUNTERS = ["ref_postconditions", "order_checks", "fault_checks", "zero_divisor_cells", "zero_weight_sum_cases", "repeated_field_cases", "later_command_checks", "fault_reevaluations", "chained_field_cases"]
+REQUIRED_COUNTERS = ["command_object_input_cases", "ref_postconditions", "order_checks", "fault_checks", "zero_divisor_cells", "zero_weight_sum_cases", "repeated_field_cases", "later_command_checks", "fault_reevaluations", "chained_field_cases"]
 ASSUMPTIONS = ["reference models in mpv/ref.py", "int64 overflow and NaN/inf inputs are never generated", "result dtype is not judged"]
 
 COMMUTATIVE = ("Sum", "Multiply", "Minimum", "Maximum", "Mean", "WeightedSum", "WeightedMean")
@@ -211,7 +211,9 @@ def run_case(ctx, case):
         conv = getattr(numpy, case["weights_as"])
         if all(float(conv(w)) == float(w) for w in params["Weights"]):
             call_params = dict(params, Weights=[conv(w) for w in params["Weights"]])
-    out, prog0 = arr.run_cmd(cmd, inputs, call_params, refs=refs)
+    out, prog0 = arr.run_cmd(cmd, inputs, call_params, refs=refs, objects="lone")      # a quarter: fields handed over as finished command objects
+    if getattr(prog0, "_mpv_object_mode", False):
+        ctx.count("command_object_input_cases")
     tclass = "first-" + _dtype_class(case["inputs"])[:1] + ("-mixed" if len(set(_dtype_class(case["inputs"]))) > 1 else "-uniform")
     try:
         want, scale = ref.MODELS[cmd](fcols, params)
@@ -264,7 +266,7 @@ def run_case(ctx, case):
     small_ints = any(s["dtype"] in ("int16", "int32") for s in case["inputs"])   # partial results may overflow in one order only
     # a later command over the same fields (Sum of all of them) still sees what they held: the command under test computed
     # from its inputs, it did not consume them
-    if out.ok and not small_ints and want is not None:
+    if out.ok and not small_ints and want is not None and not getattr(prog0, "_mpv_object_mode", False):
         ctx.count("later_command_checks")
         names = [arr.STANDIN_NAMES[i] if i < len(arr.STANDIN_NAMES) else "In%d" % i for i in range(n)]
         later = arr.invoke(prog0, "Sum", "Later", {"InFieldNames": names})
